@@ -2,6 +2,7 @@
 
        _copy = copy.copy(self)                      new object, every field aliases self's
        _copy._id = str(uuid.uuid1())                fresh id string (oracle [uuid])
+       _copy.parent = None                          the copy is a detached tree (commit 67b45ec)
        Node.set_node_instance(_copy)
        _copy.attributes = {}; for k, v in self.attributes.items(): _copy.attributes[k] = v
        _copy.nsmap = {};      … same …
@@ -13,7 +14,6 @@
 
    The uuid1 oracle is a parameter: [uuid k] is the string handed to the k-th node object of
    the process (theorems assume it injective and unused so far; the harness instantiates it).
-   The root copy keeps the original's [parent] field (copy.copy aliases it and nothing resets it).
    Definitions only. *)
 From MP Require Import Common.Base Common.Tree Model.Heap Model.Registry.
 
@@ -58,7 +58,7 @@ Section Copy.
   Definition copy_head (h : heap) (r : nrec) : heap * nat :=
     let n' := next_id h in
     let h1 := fst (new_node h r) in                                   (* copy.copy(self) *)
-    let r1 := set_idstr r (uuid n') in                                (* _copy._id = uuid1() *)
+    let r1 := set_parent (set_idstr r (uuid n')) None in              (* _copy._id = uuid1(); _copy.parent = None *)
     let h2 := nset h1 n' r1 in
     let h3 := set_store h2 (dict_set (idstr r1) n' (store h2)) in     (* Node.set_node_instance(_copy) *)
     let r2 := set_attrs r1 (next_loc h3) in                           (* _copy.attributes = {} … *)
